@@ -116,6 +116,17 @@ def run(tier, seed):
 
     chk = core.Check("C14", tier, seed)
     chk.proof = core.prove("C14", PROOF_MODULES, extra_targets=("drv_c14",), tier=tier)
+    if tier == "thorough" and chk.proof["build_ok"]:
+        # independent re-check of the 16 chunk modules that carry the whole-table obligations
+        from concurrent.futures import ThreadPoolExecutor
+
+        mods = [f"UnytProofs.Lemmas.C14Chunk{i:02d}" for i in range(16)]
+        with ThreadPoolExecutor(max_workers=4) as ex:
+            res = list(ex.map(lambda m: core.leanchecker([m]), mods))
+        bad = [(m, out) for m, (ok, out) in zip(mods, res) if not ok]
+        for m, out in bad:
+            chk.proof["broken"].append(("leanchecker:" + m, out))
+        chk.extra["leanchecker_chunk_modules"] = "ok (16 modules)" if not bad else f"{len(bad)} failed"
     rng = chk.rng
     plugin = load_plugin()
     reader = Reader(LUT, ALT)
